@@ -36,13 +36,7 @@ class C04(Prop):
                    "theorems, evaluated by CPython itself for the driver)",
                    "Python dicts are modelled as association lists; theorems are stated for the sorted representative, "
                    "independence of the bytes from the insertion order is C08"]
-    partial = {
-        "C04_tree_fixpoint": "stated for trees in normal form (each Python dict represented by its SortedDict-ordered list, top-level "
-                             "variants filed under their UID, children under their id); that the dump does not depend on the insertion "
-                             "order of the same dict contents is C08",
-        "C04_tree_bytes": "same restriction as C04_tree_fixpoint; TextOK (representability of the written document) is a hypothesis on the "
-                          "document, evaluated per case by the driver",
-    }
+    partial = {}
 
     # ------------------------------------------------------------------ generators
     def cases(self, rng, tier, budget):
